@@ -75,12 +75,18 @@ func c11Histories(thorough bool) []c11Hist {
 	// an identifier so long that only the final file name fits into NAME_MAX, not the temporary one;
 	// a read flag that is changed for the third time (the stored file carries every private header)
 	hs = append(hs, c11Hist{1, "ProcessInbound-longmid", 0}, c11Hist{0, "ProcessInbound-longmid", 1}, c11Hist{1, "SetUnread-third-change", 0}, c11Hist{2, "SetUnread-third-change", 0})
+	// an identifier with the other characters a file name may hold (foreign systems put them into MIDs)
+	hs = append(hs, c11Hist{1, "ProcessInbound-oddmid", 0}, c11Hist{0, "ProcessInbound-oddmid", 2})
+	// the sent folder is on another file system than the outbox (a mount point, a symlink): rename fails with EXDEV
+	hs = append(hs, c11Hist{1, "SetSent-xdev", 0}, c11Hist{2, "SetSent-xdev", 0})
 	return hs
 }
 
 // c11LongMID: 248 characters - "<MID>.b2f" fits into a file name of 255 bytes, the decorated name of
 // the temporary file does not.
 var c11LongMID = "L" + strings.Repeat("A", 247)
+
+const c11OddMID = "K7:AB+CD@1_2"
 
 var c11Seq int
 
@@ -156,6 +162,8 @@ func (e *c11Env) op(h c11Hist) error {
 		return e.h.ProcessInbound(c11Msg("NEWIN1", h.Size, false))
 	case "ProcessInbound-longmid":
 		return e.h.ProcessInbound(c11Msg(c11LongMID, h.Size, false))
+	case "ProcessInbound-oddmid":
+		return e.h.ProcessInbound(c11Msg(c11OddMID, h.Size, false))
 	case "SetUnread-third-change":
 		for _, v := range []bool{false, true, false} {
 			msgs, err := e.h.Inbox()
@@ -183,6 +191,10 @@ func (e *c11Env) op(h c11Hist) error {
 		e.h.SetSent("OUT1", false)
 	case "SetSent-rejected":
 		e.h.SetSent("OUT1", true)
+	case "SetSent-xdev":
+		vfs.XDev = true
+		defer func() { vfs.XDev = false }()
+		e.h.SetSent("OUT1", false)
 	case "SetSent-p2ponly":
 		e.h.SetSent("P2P1", false)
 	case "SetUnread-false", "SetUnread-true":
@@ -295,7 +307,7 @@ func c11Run(p c11Plan) (class, detail, tree string, inside bool) {
 	// previously stored messages are intact (the operation's own targets follow their own rule)
 	moved := map[string]bool{}
 	switch p.Hist.Op {
-	case "SetSent", "SetSent-rejected":
+	case "SetSent", "SetSent-rejected", "SetSent-xdev":
 		moved["OUT1"] = true
 	case "SetSent-p2ponly":
 		moved["P2P1"] = true
@@ -357,6 +369,10 @@ func c11Run(p c11Plan) (class, detail, tree string, inside bool) {
 	switch p.Hist.Op {
 	case "ProcessInbound-longmid":
 		if c, d := check(c11LongMID, p.Hist.Size); c != "" {
+			return c, d, tree, inside
+		}
+	case "ProcessInbound-oddmid":
+		if c, d := check(c11OddMID, p.Hist.Size); c != "" {
 			return c, d, tree, inside
 		}
 	case "ProcessInbound-new":
@@ -428,7 +444,16 @@ func c11Plans(h c11Hist) []c11Plan {
 	e := c11Setup(h)
 	defer e.close()
 	vfs.Begin(-1, 0, true)
-	e.op(h)
+	func() {
+		defer func() {
+			if x := recover(); x != nil {
+				if _, ok := x.(vfs.Crash); !ok { // (the operation may end the process: log.Fatal)
+					panic(x)
+				}
+			}
+		}()
+		e.op(h)
+	}()
 	log := vfs.End()
 	var plans []c11Plan
 	step := 0
